@@ -238,6 +238,9 @@ class HybridGibbs:
             if not isinstance(sampler, NUTS): # Again, special case for NUTS.
                 sampler.set_state(sampler_state)
                 sampler.set_history(sampler_history)
+                # The restored state holds evaluations of the previous target (conditional) at the current point.
+                # Recompute them for the new target, which reinitialize() could not do since it starts from initial_point
+                self._update_cached_target_evaluations(sampler)
 
             # Run pre_warmup and pre_sample methods for sampler
             # TODO. Some samplers (NUTS) seem to require to run _pre_warmup before _pre_sample
@@ -290,6 +293,15 @@ class HybridGibbs:
             if par_name not in self.num_sampling_steps:
                 self.num_sampling_steps[par_name] = 1
 
+
+    def _update_cached_target_evaluations(self, sampler):
+        """ Re-evaluate, on the sampler's current target and at its current point, the target evaluations the sampler caches in its state """
+        if hasattr(sampler, 'current_target_logd'):
+            sampler.current_target_logd = sampler.target.logd(sampler.current_point)
+        if hasattr(sampler, 'current_target_grad'):
+            sampler.current_target_grad = sampler.target.gradient(sampler.current_point)
+        if hasattr(sampler, 'current_likelihood_logd'):
+            sampler.current_likelihood_logd = sampler.likelihood.logd(sampler.current_point)
 
     def _pre_warmup_and_pre_sample_sampler(self, sampler):
         if hasattr(sampler, '_pre_warmup'): sampler._pre_warmup()
